@@ -75,11 +75,14 @@ template<bool iomode> void CustomTabulated::read(std::istream &is){
         is >> T;
         if (!(T.compare("levels:") == 0)){ throw std::invalid_argument("ERROR: wrong file format of custom tables on line 2"); }
         is >> num_levels;
+        if (is.fail() or num_levels < 0) throw std::invalid_argument("ERROR: wrong file format of custom tables, invalid number of levels");
 
         num_nodes.resize(num_levels);
         precision.resize(num_levels);
-        for(int i=0; i<num_levels; i++)
+        for(int i=0; i<num_levels; i++){
             is >> num_nodes[i] >> precision[i];
+            if (is.fail() or num_nodes[i] < 0) throw std::invalid_argument("ERROR: wrong file format of custom tables, invalid number of nodes");
+        }
 
         nodes.resize(num_levels);
         weights.resize(num_levels);
@@ -98,10 +101,13 @@ template<bool iomode> void CustomTabulated::read(std::istream &is){
         description = desc.data();
 
         is.read((char*) &num_levels, sizeof(int));
+        if (is.fail() or num_levels < 0) throw std::runtime_error("ERROR: wrong binary format of custom tables, invalid number of levels");
         num_nodes.resize(num_levels);
         precision.resize(num_levels);
         is.read((char*) num_nodes.data(), num_levels * sizeof(int));
         is.read((char*) precision.data(), num_levels * sizeof(int));
+        for(auto n : num_nodes)
+            if (is.fail() or n < 0) throw std::runtime_error("ERROR: wrong binary format of custom tables, invalid number of nodes");
 
         nodes.resize(num_levels);
         weights.resize(num_levels);
